@@ -121,6 +121,43 @@ def job_quad(tier):
     return res
 
 
+def job_quad2(tier):
+    """vector-valued quadratic, ny = 2 != nx = 3: pins the block stride of the stacked Hessian layout (block m starts at column m*nx)"""
+    T.reset_terms()
+    res = check.Result()
+    h = Both()
+    Q0, Q1, q0, q1 = G.syms("Q", 9), G.syms("R", 9), G.syms("q", 3), G.syms("r", 3)
+    x, y = G.syms("x", 2), [T.Sym("y")]
+    w = x + y
+    ins = Q0 + Q1 + q0 + q1 + x + y
+    asm = nonzero_asm(w)
+    nout = 2 + 6 + 18 + 2 + 3
+
+    def sampler(k):
+        r = random.Random(k)
+        return [r.uniform(-1, 1) for _ in range(24)] + [r.uniform(0.11, 0.99) for _ in range(3)]
+
+    def obligations(ins_, o):
+        obl = []
+        for m, (Q, q) in enumerate(((Q0, q0), (Q1, q1))):
+            Qm = [Q[3 * i:3 * i + 3] for i in range(3)]
+            obl.append(("value%d" % m, o[m], T.Add(T.Mul(T.Const(Fraction(1, 2)), G.dot(w, G.mv(Qm, w))), G.dot(q, w))))
+            for i in range(3):
+                for j in range(3):
+                    # documented layout: H(i, m*nx + j) = d2 f_m / dw_i dw_j
+                    obl.append(("H%d_%d_%d" % (m, i, j), o[8 + i * 6 + m * 3 + j], T.Mul(T.Const(Fraction(1, 2)), T.Add(Qm[i][j], Qm[j][i]))))
+        obl.append(("H.rows", o[26], T.Const(3)))
+        obl.append(("H.cols", o[27], T.Const(6)))
+        for j in range(3):
+            obl.append(("arg%d-restored" % j, o[28 + j], w[j]))
+        return obl
+    res.validated += h.validate("diff_quad2", sampler, nout, 5)
+    check.check_wrapper(res, h, "diff_quad2", ins, nout, None, "numerical/quadratic-vector-valued/K2", obligations=obligations, assumptions=asm, tol=5e-2, pid=PID, sampler=sampler,
+                        max_paths=2500, nvalidate=0)
+    res.axioms.add("second differences are exact on quadratics: block m of the stacked Hessian occupies columns m*nx .. m*nx+nx-1 (ny != nx separates the two strides)")
+    return res
+
+
 def job_subset(tier):
     T.reset_terms()
     res = check.Result()
@@ -239,7 +276,7 @@ def main(tier):
     run = check.Run(PID, tier)
     check.JOB_BUDGET[0] = 300
     check.run_jobs([(_compile, ())])
-    jobs = [(job_lin, (0, tier, 1)), (job_lin, (0, tier, 2)), (job_lin, (0, tier, -1)), (job_lin, (0, tier, 3)), (job_lin, (1, tier, 1)), (job_quad, (tier,)), (job_subset, (tier,)), (job_analytic, (tier,)), (job_action, (tier,))]
+    jobs = [(job_lin, (0, tier, 1)), (job_lin, (0, tier, 2)), (job_lin, (0, tier, -1)), (job_lin, (0, tier, 3)), (job_lin, (1, tier, 1)), (job_quad, (tier,)), (job_quad2, (tier,)), (job_subset, (tier,)), (job_analytic, (tier,)), (job_action, (tier,))]
     run.extend(check.run_jobs(jobs, timeout=1200))
     run.bounds += ["families with SYMBOLIC coefficients: affine R^2 x R x R^n(dynamic) -> R^2, quadratic R^2 x R -> R (K=2), SO3 x R^3 action; coordinates non-zero (each sign is a path)",
                    "argument mixes: static vector, scalar, dynamic vector, SO3; const and non-const references; index subset <0,2>; K in {0,1,2}"]
